@@ -1,13 +1,20 @@
 """C10 - a seed makes simgenotype and simphenotype reproducible.
 
 Relations
-  genotype  : every generated simgenotype configuration is run twice in one process
-              (Python entry points, `haptools simgenotype` through CliRunner, or one of each)
-              with the process-global generator re-positioned arbitrarily and a default_rng
-              consumed before each run; observed: the global state on entry, the global state
-              at the run's first draw, .bp bytes and the parsed VCF/BCF/PGEN content.
-  phenotype : the same for simphenotype; observed: the state of PhenoSimulator.rng after
-              construction and before/after every replicate, the noise vectors, .pheno bytes.
+  genotype  : every generated simgenotype configuration is run twice (Python entry points,
+              `haptools simgenotype` through CliRunner, or one of each), each run after its OWN generated
+              history of earlier calls in the process: numpy disturbances (the global generator re-seeded /
+              advanced, a default_rng consumed), earlier simgenotype runs (Python API or CLI) on the SAME map
+              directory / model / reference with another --region, chromosome subset, seed or --only_breakpoint,
+              earlier simphenotype runs, loading the reference with the haptools readers.  One of the two
+              histories may be empty, and run A may be made in a fresh interpreter.  Observed per run: the global
+              state on entry, at the first draw, a hash over (function, state) of EVERY legacy np.random call,
+              whether every change of the global generator went through such a call, other generators created,
+              the state on return, .bp bytes and the parsed VCF/BCF/PGEN content.
+  phenotype : the same for simphenotype (histories: numpy disturbances, earlier simphenotype runs with other
+              options on the same files, Genotypes / Haplotypes loads of them); observed: the state of
+              PhenoSimulator.rng after construction and before/after every replicate, the noise vectors, what the
+              run did to the global generator, generators created, .pheno bytes.
   replicates: one simphenotype run with 2-6 replications (simulate_pt or the CLI, seeds incl. 0 and none, with and
               without prevalence) with the simulator's public rng wrapped by a recorder; observed: the float noise
               vector every replicate drew, the columns of the written .pheno, the consecutive draws of a COPY of the
@@ -26,14 +33,16 @@ from .core import Relation, err_kind
 
 PROP = "C10"
 CLAIMED = True
-COQ_MODULES = ["Stats", "C10_Model", "C10_Check", "C10_Proofs"]
+COQ_MODULES = ["Stats", "C10_Model", "C10_Check", "C10_Proofs", "C10_Process"]
 PROPERTY_MODULE = "C10_Property"
 ALLOWED_AXIOMS = []
 RULE = (
     "a double run is non-trivial when a seed is given, both runs completed and the two runs started from "
-    "different process states (different global generator positions; a default_rng consumed in between); "
+    "different process states (different global generator positions; different generated histories of numpy "
+    "disturbances and earlier haptools calls on the same files); "
     "simgenotype: at least one admixed generation or >= 2 populations so that draws matter; "
-    "simphenotype: >= 1 replicate with noise variance > 0; replicates: >= 2 replicates, every one observed with "
+    "simphenotype: >= 1 replicate with noise variance > 0, or the noise-free case/control class with tied "
+    "liabilities and 0 < k < n cases; replicates: >= 2 replicates, every one observed with "
     "noise variance > 0 and >= 2 samples. Distinct = distinct canonical JSON of the input."
 )
 TRUSTED = [
@@ -80,15 +89,15 @@ def gen_state_hash(g):
 
 
 def disturb(hist):
-    """whatever ran earlier in the process: reposition the global generator, use a default_rng"""
-    if hist["reseed"] is not None:
+    """a numpy disturbance: reposition the global generator, use a default_rng"""
+    if hist.get("reseed") is not None:
         np.random.seed(hist["reseed"])
-    if hist["draws"]:
+    if hist.get("draws"):
         np.random.rand(hist["draws"])
-    if hist["randint"]:
+    if hist.get("randint"):
         np.random.randint(100, size=hist["randint"])
-    g = np.random.default_rng(hist["rng_seed"])
-    g.normal(size=hist["rng_draws"])
+    g = np.random.default_rng(hist.get("rng_seed"))
+    g.normal(size=hist.get("rng_draws", 0))
 
 
 def gen_history(rng):
@@ -97,17 +106,106 @@ def gen_history(rng):
             "rng_seed": None if rng.random() < 0.5 else int(rng.integers(0, 1000)), "rng_draws": int(rng.integers(0, 50))}
 
 
+# ---------------------------------------------------------------------------
+# whatever ran earlier in the process: a history is a LIST of events
+#   {"k": "np", ...gen_history...}                      a numpy disturbance
+#   {"k": "simgt", "api": "py"|"cli", "par": {...}}     an earlier simgenotype run on the same map directory, model and
+#                                                       reference; par overrides chroms / region / seed / only_bp / ...
+#   {"k": "simpt", "api": ..., "par": {...}}            an earlier simphenotype run on the same files with other options
+#   {"k": "simpt", "api": ..., "p": {pconfig}}          (genotype relation) an earlier simphenotype run on files of its own
+#   {"k": "load", "what": "ref"|"gt"|"hp"}              reading an input with the haptools readers
+# a bare dict without "k" is the former single numpy disturbance (corpus files)
+
+
+def events(h):
+    if h is None:
+        return []
+    if isinstance(h, dict):
+        return [dict(h, k="np")]
+    return list(h)
+
+
+def np_event(rng):
+    return dict(gen_history(rng), k="np")
+
+
+def has_haptools_event(h):
+    return any(e.get("k") != "np" for e in events(h))
+
+
+def run_history(hist, ctx, tag):
+    """run the events one after the other; an earlier call that failed still is something that ran earlier"""
+    for j, ev in enumerate(events(hist)):
+        try:
+            run_event(ev, ctx, f"h{tag}{j}")
+        except BaseException:  # noqa
+            pass
+
+
+def run_event(ev, ctx, name):
+    k = ev.get("k", "np")
+    d = ctx["d"]
+    if k == "np":
+        disturb(ev)
+    elif k == "simgt" and ctx["kind"] == "g":
+        ref, model = ctx["paths"]
+        par = dict(gpar(ctx["inp"]), **ev.get("par", {}))
+        call_simgenotype(par, d, os.path.join(d, name + "." + ev.get("fmt", "vcf")), ev.get("api", "py"), ref, model)
+    elif k == "simpt" and ctx["kind"] == "p":
+        gt, hp = ctx["paths"]
+        par = dict(ppar(ctx["inp"]), **ev.get("par", {}))
+        call_simphenotype(par, os.path.join(d, name + ".pheno"), ev.get("api", "py"), gt, hp)
+    elif k == "simpt":
+        sub = os.path.join(d, name)
+        os.makedirs(sub, exist_ok=True)
+        gt, hp = write_pinputs(ev["p"], sub)
+        call_simphenotype(ppar(ev["p"]), os.path.join(sub, "out.pheno"), ev.get("api", "py"), gt, hp)
+    elif k == "load":
+        from haptools import data
+
+        what = ev.get("what")
+        if ctx["kind"] == "g" and what == "ref":
+            path = ctx["paths"][0]
+        elif ctx["kind"] == "p" and what in ("gt", "hp"):
+            path = ctx["paths"][0 if what == "gt" else 1]
+        else:
+            return
+        if path.endswith(".pgen"):
+            data.GenotypesPLINK.load(path)
+        elif path.endswith(".hap"):
+            data.Haplotypes.load(path)
+        elif path.endswith(".snplist"):
+            open(path).read()
+        elif ev.get("cls") == "Genotypes":
+            data.Genotypes.load(path)
+        else:
+            data.GenotypesVCF.load(path)
+
+
 class FirstDraw:
-    """records the global generator's state at the first np.random.* draw after start(), and a running hash of
-    EVERY call (function name, global state before the call) of the legacy np.random API made during the run -
-    all sampling functions bound to the global RandomState, and seed / set_state (a re-seeding in mid-run)"""
+    """records, between construction and close():
+    * the global generator's state at the first np.random.* draw, and a running hash of EVERY call (function name,
+      global state before the call) of the legacy np.random API - all sampling functions bound to the global
+      RandomState, and seed / set_state (a re-seeding in mid-run);
+    * gaps: how often the global generator was found in another state than the one the previous recorded call (or
+      the construction of the recorder) had left it in, close() included - 0 means every change of the global
+      generator went through a recorded call, so the hashed sequence is the whole story;
+    * private: generators created through np.random.default_rng / RandomState(...) / Generator(...) and calls of the stdlib
+      `random` module's global functions - randomness that is not the global numpy generator's."""
 
     SKIP = {"get_state"}
+    PLAIN = ("seed", "ranf", "sample", "set_bit_generator")
+    RESEED = ("seed", "set_state", "set_bit_generator")
 
     def __init__(self):
+        import random as pyrandom
+
         self.first = None
         self.n = 0
         self.h = hashlib.sha256()
+        self.gaps = 0
+        self.private = 0
+        self.reseeds = 0
         glob = np.random.mtrand._rand
         self.saved = {}
         for n in dir(np.random):
@@ -115,41 +213,166 @@ class FirstDraw:
             if n.startswith("_") or n in self.SKIP or not callable(f) or getattr(f, "__self__", None) is not glob:
                 continue
             self.saved[n] = f
+        for n in self.PLAIN:      # module-level functions (not bound methods) that act on the global RandomState
+            if callable(getattr(np.random, n, None)):
+                self.saved[n] = getattr(np.random, n)
         for n, f in self.saved.items():
             setattr(np.random, n, self._wrap(n, f))
+        self.saved_other = [(np.random, "default_rng", np.random.default_rng)]
+        for n in dir(pyrandom):
+            f = getattr(pyrandom, n)
+            if not n.startswith("_") and callable(f) and getattr(f, "__self__", None) is pyrandom._inst:
+                self.saved_other.append((pyrandom, n, f))
+        for mod, n, f in self.saved_other:
+            setattr(mod, n, self._count(f))
+        for cname in ("RandomState", "Generator"):
+            base = getattr(np.random, cname)
+            try:
+                sub = type("Counting" + cname, (base,), {"__init__": self._counting_init(base)})
+            except TypeError:
+                continue
+            self.saved_other.append((np.random, cname, base))
+            setattr(np.random, cname, sub)
+        self.entry = self.last = global_state_hash()
+
+    def _counting_init(self, base):
+        rec = self
+
+        def __init__(obj, *a, **k):
+            rec.private += 1
+            base.__init__(obj, *a, **k)
+        return __init__
+
+    def _count(self, f):
+        def g(*a, **k):
+            self.private += 1
+            return f(*a, **k)
+        return g
 
     def _wrap(self, name, f):
         def g(*a, **k):
-            if name in ("seed", "set_state"):
+            st = global_state_hash()
+            if st != self.last:
+                self.gaps += 1
+            if name in self.RESEED:
                 # the state BEFORE a re-seeding is the history; what is recorded is the re-seeding itself
-                self.h.update(f"{name}:{a!r}{k!r};".encode() if name == "seed" else b"set_state;")
+                self.reseeds += 1
+                self.h.update(f"{name}:{a!r}{k!r};".encode() if name == "seed" else f"{name};".encode())
             else:
-                st = global_state_hash()
                 if self.first is None:
                     self.first = st
                 self.n += 1
                 self.h.update(f"{name}:{st};".encode())
-            return f(*a, **k)
+            try:
+                return f(*a, **k)
+            finally:
+                self.last = global_state_hash()
         return g
 
     def trace(self):
         return f"{self.n}:{self.h.hexdigest()}"
 
     def close(self):
+        if global_state_hash() != self.last:
+            self.gaps += 1
+            self.last = global_state_hash()
         for n, f in self.saved.items():
             setattr(np.random, n, f)
+        for mod, n, f in self.saved_other:
+            setattr(mod, n, f)
 
 
 # ---------------------------------------------------------------------------
 # simgenotype
 
 
-def gen_gconfig(rng):
+def gen_region_of(rng, rows):
+    """a --region cut out of a map: starts / ends ON marker positions (+-1, +-2), so that the last marker of the
+    subset is an interior marker of the chromosome (or of a wider region)"""
+    bps = [r[2] for r in rows]
+    i = int(rng.integers(0, len(bps)))
+    j = int(rng.integers(i, len(bps)))
+    start = max(1, bps[i] - int(rng.choice([0, 0, 1, 2])))
+    end = bps[j] + int(rng.choice([-1, 0, 0, 0, 1]))
+    return start, max(end, start + 1)
+
+
+def gen_simgt_event(rng, cfg, seed):
+    """an earlier simgenotype run on the same files with ANOTHER extent / seed / output selection"""
+    c = str(rng.choice(cfg["chroms"]))
+    par = {}
+    if rng.random() < 0.7:
+        a, b = gen_region_of(rng, cfg["maps"][c])
+        par["region"], par["chroms"] = {"chr": c, "start": a, "end": b}, [c]
+    else:
+        k = int(rng.integers(1, len(cfg["chroms"]) + 1))
+        idx = sorted(rng.choice(len(cfg["chroms"]), size=k, replace=False).tolist())
+        par["region"], par["chroms"] = None, [cfg["chroms"][i] for i in idx]
+    r = rng.random()
+    par["seed"] = seed if r < 0.3 else None if r < 0.4 else int(rng.choice([0, 7, 2**32 - 1])) if r < 0.7 else int(rng.integers(0, 2**32 - 1))
+    par["only_bp"] = bool(rng.random() < 0.7)
+    return {"k": "simgt", "api": str(rng.choice(["py", "cli"])), "par": par}
+
+
+def small_pconfig(rng):
+    c = gen_pconfig(rng)
+    for k in ("histA", "histB", "mode", "fresh"):
+        c.pop(k, None)
+    c["fmt"] = "vcf.gz"
+    return c
+
+
+def gen_ghist(rng, cfg, seed, haptools):
+    """a history for the genotype relation; haptools=False: numpy disturbances only"""
+    out = []
+    if haptools:
+        for _ in range(int(rng.choice([1, 1, 1, 2, 3]))):
+            r = rng.random()
+            if r < 0.6:
+                out.append(gen_simgt_event(rng, cfg, seed))
+            elif r < 0.75:
+                out.append({"k": "load", "what": "ref", "cls": str(rng.choice(["GenotypesVCF", "Genotypes"]))})
+            elif r < 0.87:
+                out.append({"k": "simpt", "api": str(rng.choice(["py", "cli"])), "p": small_pconfig(rng)})
+            else:
+                out.append(np_event(rng))
+    if rng.random() < 0.8:
+        out.append(np_event(rng))
+    return out
+
+
+def gen_hist_pair(rng, gen):
+    """(histA, histB, fresh): the two runs get DIFFERENT histories.  Most weight on A without and B with earlier
+    haptools calls: run A itself is part of B's past, so a leak that an equal earlier run does not show
+    (idempotent updates of shared objects) shows when B alone has another call in between"""
+    r = rng.random()
+    if r < 0.40:
+        return gen(False), gen(True), False
+    if r < 0.50:
+        return [], gen(True), False
+    if r < 0.62:
+        return gen(True), gen(False), False
+    if r < 0.80:
+        return gen(True), gen(True), False
+    if r < 0.90:
+        return gen(False), gen(False), False
+    # run A in a fresh interpreter (nothing ran there before it), run B here after its history
+    return ([] if rng.random() < 0.6 else gen(False)), gen(True), True
+
+
+def gen_gconfig(rng, wide=None):
     cfg = make_config(rng)
     if rng.random() < 0.5 and len(cfg["model"]) == 1:
         cfg["model"].append([cfg["model"][0][0] + 2, 1.0] + [0.0] * len(cfg["pops"]))
+    if wide is not None:
+        # width boundary: 2 * nsamples output haplotypes / the sample count of the output straddle 127|128, 255|256
+        cfg["nsamples"], cfg["popsize"] = int(wide), int(wide) + 2
+        cfg["model"] = cfg["model"][:1]
+        if not cfg["region"]:
+            cfg["chroms"] = cfg["chroms"][:1]
+            cfg["maps"] = {c: cfg["maps"][c] for c in cfg["chroms"]}
     ref = {}
-    nper = 2 * cfg["nsamples"] + 2
+    nper = 2 * cfg["nsamples"] + 2 if wide is None else cfg["nsamples"] // 2 + 2
     samples = [f"{p}_{j}" for p in cfg["pops"] for j in range(nper)]
     sinfo = [[f"{p}_{j}", p] for p in cfg["pops"] for j in range(nper)]
     for c in cfg["chroms"]:
@@ -157,7 +380,7 @@ def gen_gconfig(rng):
         lo, hi = (max(1, bps[0] - 50), bps[-1] + 50)
         if cfg["region"]:
             lo, hi = max(1, cfg["region"]["start"]), max(cfg["region"]["end"], cfg["region"]["start"] + 1)
-        k = int(rng.integers(2, 9))
+        k = int(rng.integers(2, 9)) if wide is None else 2
         pos = sorted(set(int(x) for x in rng.integers(lo, hi + 1, size=k)))
         # a variant exactly on a marker position when possible
         inside = [b for b in bps if lo <= b <= hi]
@@ -167,16 +390,74 @@ def gen_gconfig(rng):
         for row in ref[c]:            # both alleles present in the reference
             row[1][0], row[1][1] = [0, 1], [1, 0]
     fmt = str(rng.choice(["vcf", "vcf.gz", "bcf", "pgen"]))
-    return {
+    seed = (None if rng.random() < 0.1 else int(rng.choice(SEEDS)) if rng.random() < 0.8 else int(rng.integers(0, 2**32 - 1)))
+    c = {
         "cfg": cfg, "samples": samples, "sinfo": sinfo, "ref": ref,
         "ref_pgen": bool(rng.random() < 0.15),
         "fmt": fmt, "pop_field": bool(rng.random() < 0.4), "sample_field": bool(rng.random() < 0.3),
-        "norepl": bool(rng.random() < 0.25), "only_bp": bool(rng.random() < 0.25),
+        "norepl": bool(rng.random() < 0.25) and wide is None, "only_bp": bool(rng.random() < 0.25),
         "chunk": None if rng.random() < 0.7 else int(rng.integers(1, 4)),
-        "seed": (None if rng.random() < 0.1 else int(rng.choice(SEEDS)) if rng.random() < 0.8 else int(rng.integers(0, 2**32 - 1))),
+        "seed": seed,
         "mode": str(rng.choice(["py", "cli", "mixed"])),
-        "histA": gen_history(rng), "histB": gen_history(rng),
     }
+    c["histA"], c["histB"], fresh = gen_hist_pair(rng, lambda hap: gen_ghist(rng, cfg, seed, hap))
+    if fresh:
+        c["fresh"] = True
+    return c
+
+
+def gpar(inp):
+    """the parameters of the simgenotype run under test"""
+    cfg = inp["cfg"]
+    return {"chroms": cfg["chroms"], "region": cfg["region"], "popsize": cfg["popsize"], "seed": inp["seed"],
+            "only_bp": inp["only_bp"], "pop_field": inp["pop_field"], "sample_field": inp["sample_field"],
+            "norepl": inp["norepl"], "chunk": inp["chunk"]}
+
+
+def call_simgenotype(par, d, out, mode, ref, model):
+    """haptools simgenotype with the parameters par (Python entry points as __main__ strings them together, or the
+    command line); map directory d, outputs `out` and <out without extension>.bp; raises what the command raises"""
+    sinfo = os.path.join(d, "sinfo.tsv")
+    if mode == "py":
+        import re
+
+        import haptools.sim_genotype as sg
+        from haptools.logging import getLogger
+
+        log = getLogger("hv", "CRITICAL")
+        prefix = re.split(r"(\.vcf|\.bcf|\.vcf\.gz|\.pgen)$", out)[0]
+        pop_field, sample_field = par["pop_field"], par["sample_field"]
+        if out.endswith(".pgen"):
+            pop_field = sample_field = False
+        ps = sg.validate_params(model, d, par["chroms"], par["popsize"], ref, sinfo, par["norepl"], par["region"],
+                                par["only_bp"])
+        n, pd, bps = sg.simulate_gt(model, d, par["chroms"], par["region"], ps, log, par["seed"])
+        bps = sg.write_breakpoints(n, pd, bps, prefix, log)
+        if not par["only_bp"]:
+            sg.output_vcf(bps, par["chroms"], model, ref, sinfo, par["region"], pop_field, sample_field,
+                          par["norepl"], out, log, par["chunk"])
+        return
+    from click.testing import CliRunner
+    from haptools.__main__ import main
+
+    args = ["simgenotype", "--model", model, "--mapdir", d, "--out", out, "--ref_vcf", ref,
+            "--sample_info", sinfo, "--popsize", str(par["popsize"]), "--verbosity", "CRITICAL"]
+    if par["region"]:
+        r = par["region"]
+        args += ["--region", f"{r['chr']}:{r['start']}-{r['end']}"]
+    else:
+        args += ["--chroms", ",".join(par["chroms"])]
+    if par["seed"] is not None:
+        args += ["--seed", str(par["seed"])]
+    for flag, on in (("--pop_field", par["pop_field"]), ("--sample_field", par["sample_field"]),
+                     ("--no_replacement", par["norepl"]), ("--only_breakpoint", par["only_bp"])):
+        if on:
+            args.append(flag)
+    if par["chunk"] is not None:
+        args += ["--chunk-size", str(par["chunk"])]
+    r = CliRunner().invoke(main, args, catch_exceptions=True)
+    if r.exception is not None and not (isinstance(r.exception, SystemExit) and r.exit_code == 0):
+        raise r.exception
 
 
 def write_reference(inp, d):
@@ -247,57 +528,20 @@ def genotype_content(path):
 
 
 def one_grun(inp, d, tag, mode, ref, model):
-    """one simgenotype run; returns dict(pre, start, out=[...], err)"""
-    import haptools.sim_genotype as sg
-    from haptools.logging import getLogger
-
-    cfg = inp["cfg"]
+    """one simgenotype run; returns dict(pre, start, trace, end, gaps, private, out=[...], err)"""
     out = os.path.join(d, f"{tag}.{inp['fmt']}")
     prefix = os.path.join(d, tag)
-    sinfo = os.path.join(d, "sinfo.tsv")
     res = {"pre": global_state_hash(), "err": None}
     rec = FirstDraw()
     try:
-        if mode == "py":
-            log = getLogger("hv", "CRITICAL")
-            pop_field, sample_field = inp["pop_field"], inp["sample_field"]
-            if out.endswith(".pgen"):
-                pop_field = sample_field = False
-            ps = sg.validate_params(model, d, cfg["chroms"], cfg["popsize"], ref, sinfo, inp["norepl"], cfg["region"],
-                                    inp["only_bp"])
-            n, pd, bps = sg.simulate_gt(model, d, cfg["chroms"], cfg["region"], ps, log, inp["seed"])
-            bps = sg.write_breakpoints(n, pd, bps, prefix, log)
-            if not inp["only_bp"]:
-                sg.output_vcf(bps, cfg["chroms"], model, ref, sinfo, cfg["region"], pop_field, sample_field,
-                              inp["norepl"], out, log, inp["chunk"])
-        else:
-            from click.testing import CliRunner
-            from haptools.__main__ import main
-
-            args = ["simgenotype", "--model", model, "--mapdir", d, "--out", out, "--ref_vcf", ref,
-                    "--sample_info", sinfo, "--popsize", str(cfg["popsize"]), "--verbosity", "CRITICAL"]
-            if cfg["region"]:
-                r = cfg["region"]
-                args += ["--region", f"{r['chr']}:{r['start']}-{r['end']}"]
-            else:
-                args += ["--chroms", ",".join(cfg["chroms"])]
-            if inp["seed"] is not None:
-                args += ["--seed", str(inp["seed"])]
-            for flag, on in (("--pop_field", inp["pop_field"]), ("--sample_field", inp["sample_field"]),
-                             ("--no_replacement", inp["norepl"]), ("--only_breakpoint", inp["only_bp"])):
-                if on:
-                    args.append(flag)
-            if inp["chunk"] is not None:
-                args += ["--chunk-size", str(inp["chunk"])]
-            r = CliRunner().invoke(main, args, catch_exceptions=True)
-            if r.exception is not None and not (isinstance(r.exception, SystemExit) and r.exit_code == 0):
-                raise r.exception
+        call_simgenotype(gpar(inp), d, out, mode, ref, model)
     except BaseException as e:  # noqa
         res["err"] = {"cls": type(e).__name__, "kind": err_kind(e) if isinstance(e, Exception) else 10, "msg": str(e)[:160]}
     finally:
         rec.close()
     res["start"] = rec.first
     res["trace"] = rec.trace()
+    res["gaps"], res["private"] = rec.gaps, rec.private
     res["end"] = global_state_hash()
     outs = []
     bp = prefix + ".bp"
@@ -313,15 +557,17 @@ def one_grun(inp, d, tag, mode, ref, model):
     return res
 
 
-def run_in_subprocess(kind, inp, d, tag, mode, paths, hist, hashseed):
-    """one run in a fresh interpreter with its own PYTHONHASHSEED (thorough tier): outputs must not
-    depend on hash iteration order either"""
+def run_in_subprocess(kind, inp, d, tag, mode, paths, hist, hashseed=None):
+    """one run, after its history, in a fresh interpreter (hashseed given: with its own PYTHONHASHSEED - outputs
+    must not depend on hash iteration order either)"""
     import json
     import subprocess
     import sys
 
-    job = {"kind": kind, "inp": inp, "d": d, "tag": tag, "mode": mode, "paths": paths, "hist": hist}
-    env = dict(os.environ, PYTHONHASHSEED=str(hashseed))
+    job = {"kind": kind, "inp": inp, "d": d, "tag": tag, "mode": mode, "paths": paths, "hist": events(hist)}
+    env = dict(os.environ)
+    if hashseed is not None:
+        env["PYTHONHASHSEED"] = str(hashseed)
     p = subprocess.run([sys.executable, "-m", "harness.c10"], input=json.dumps(job), capture_output=True, text=True,
                        env=env, cwd=os.path.dirname(os.path.dirname(os.path.abspath(__file__))), timeout=300)
     for line in reversed(p.stdout.splitlines()):
@@ -335,32 +581,48 @@ def _subprocess_main():
     import sys
 
     job = json.loads(sys.stdin.read())
-    disturb(job["hist"])
+    real_stdout = os.dup(1)
+    os.dup2(2, 1)          # whatever the commands print does not belong to the result line
+    run_history(job["hist"], {"kind": job["kind"], "inp": job["inp"], "d": job["d"], "paths": job["paths"]}, job["tag"])
     if job["kind"] == "g":
         r = one_grun(job["inp"], job["d"], job["tag"], job["mode"], *job["paths"])
     else:
         r = one_prun(job["inp"], job["d"], job["tag"], job["mode"], *job["paths"])
+    sys.stdout.flush()
+    os.dup2(real_stdout, 1)
     print("RESULT " + json.dumps(r))
+
+
+def double_run(kind, inp, d, paths, one):
+    """run A after history A, run B after history B (and after everything A did)"""
+    mA, mB = {"py": ("py", "py"), "cli": ("cli", "cli"), "mixed": ("py", "cli")}[inp["mode"]]
+    ctx = {"kind": kind, "inp": inp, "d": d, "paths": list(paths)}
+    if inp.get("xproc"):
+        a = run_in_subprocess(kind, inp, d, "A", mA, list(paths), inp["histA"], inp["xproc"][0])
+        b = run_in_subprocess(kind, inp, d, "B", mB, list(paths), inp["histB"], inp["xproc"][1])
+        return a, b
+    if inp.get("fresh"):
+        a = run_in_subprocess(kind, inp, d, "A", mA, list(paths), inp["histA"])
+    else:
+        run_history(inp["histA"], ctx, "A")
+        a = one(inp, d, "A", mA, *paths)
+    run_history(inp["histB"], ctx, "B")
+    b = one(inp, d, "B", mB, *paths)
+    return a, b
 
 
 def run_genotype(inp):
     d = tempfile.mkdtemp(prefix="hv_c10g_")
     try:
-        cfg = inp["cfg"]
-        model = write_config(cfg, d)
+        model = write_config(inp["cfg"], d)
         ref = write_reference(inp, d)
-        mA, mB = {"py": ("py", "py"), "cli": ("cli", "cli"), "mixed": ("py", "cli")}[inp["mode"]]
-        if inp.get("xproc"):
-            a = run_in_subprocess("g", inp, d, "A", mA, [ref, model], inp["histA"], inp["xproc"][0])
-            b = run_in_subprocess("g", inp, d, "B", mB, [ref, model], inp["histB"], inp["xproc"][1])
-        else:
-            disturb(inp["histA"])
-            a = one_grun(inp, d, "A", mA, ref, model)
-            disturb(inp["histB"])
-            b = one_grun(inp, d, "B", mB, ref, model)
+        a, b = double_run("g", inp, d, [ref, model], one_grun)
         return {"ref": seeded_state_hash(inp["seed"]) if inp["seed"] is not None else None, "a": a, "b": b}
     finally:
         shutil.rmtree(d, ignore_errors=True)
+
+
+WIDE_G = [63, 64, 127, 128]
 
 
 class GenotypeRel(Relation):
@@ -377,13 +639,18 @@ class GenotypeRel(Relation):
 
     def generate(self, rng, n, tier):
         out = []
+        nwide = 1 if tier == "quick" else len(WIDE_G)
         for k in range(n):
-            c = gen_gconfig(rng)
+            wide = None
+            if 2 * len(SEEDS) <= k < 2 * len(SEEDS) + nwide:
+                wide = WIDE_G[int(rng.integers(0, len(WIDE_G)))] if tier == "quick" else WIDE_G[k - 2 * len(SEEDS)]
+            c = gen_gconfig(rng, wide)
             if k < 2 * len(SEEDS):          # every named seed through both entry points, every run
                 c["seed"] = SEEDS[k % len(SEEDS)]
                 c["mode"] = "py" if k < len(SEEDS) else "cli"
             if tier == "thorough" and k % 10 == 9:     # two fresh interpreters with different hash seeds
                 c["xproc"] = [int(rng.integers(1, 1000)), int(rng.integers(1001, 2000))]
+                c.pop("fresh", None)
             out.append(c)
         return out
 
@@ -394,6 +661,7 @@ class GenotypeRel(Relation):
             for mode in ("py", "cli"):
                 c = gen_gconfig(rng)
                 c.update(seed=seed, mode=mode, xproc=[1, 2])
+                c.pop("fresh", None)
                 out.append(c)
         return out
 
@@ -404,12 +672,12 @@ class GenotypeRel(Relation):
         it = L.Interner()
         it("__none__")
         if not isinstance(obs, dict) or "a" not in obs:
-            return f"(mkg {L.opt(inp['seed'], L.z)} 0 (mkgrun 1 (-97) (-97) (-97) []) (mkgrun 1 (-97) (-98) (-98) []))"
+            return f"(mkg {L.opt(inp['seed'], L.z)} 0 (mkgrun 1 (-97) (-97) (-97) 0 0 []) (mkgrun 1 (-97) (-98) (-98) 0 0 []))"
 
         def run(r):
             start = it(r["start"]) if r["start"] is not None else -97
             return (f"(mkgrun {L.z(it(r['pre']))} {L.z(start)} {L.z(it('trace:' + r['trace']))} {L.z(it(r['end']))} "
-                    f"{L.zl([it(x) for x in r['out']])})")
+                    f"{L.z(r['gaps'])} {L.z(r['private'])} {L.zl([it(x) for x in r['out']])})")
         ref = it(obs["ref"]) if obs["ref"] is not None else 0
         return f"(mkg {L.opt(inp['seed'], L.z)} {L.z(ref)} {run(obs['a'])} {run(obs['b'])})"
 
@@ -425,8 +693,20 @@ class GenotypeRel(Relation):
                 out.append(k)
         if inp.get("xproc"):
             out.append("two-interpreters-different-PYTHONHASHSEED")
+        if inp.get("fresh"):
+            out.append("runA-in-fresh-interpreter")
         if inp["cfg"]["region"]:
             out.append("region")
+        if inp["cfg"]["nsamples"] >= 63:
+            out.append(f"width:nsamples={inp['cfg']['nsamples']}")
+        hA, hB = has_haptools_event(inp["histA"]), has_haptools_event(inp["histB"])
+        out.append("history:A=" + ("haptools-calls" if hA else "numpy-only" if events(inp["histA"]) else "empty")
+                   + ",B=" + ("haptools-calls" if hB else "numpy-only" if events(inp["histB"]) else "empty"))
+        for e in events(inp["histA"]) + events(inp["histB"]):
+            if e.get("k") == "simgt":
+                out.append("earlier-simgenotype:" + ("region" if e["par"].get("region") else "chroms") + "/" + e.get("api", "py"))
+            elif e.get("k") in ("simpt", "load"):
+                out.append("earlier-" + e["k"])
         if isinstance(obs, dict) and "a" in obs:
             for r in (obs["a"], obs["b"]):
                 if r["err"]:
@@ -438,6 +718,19 @@ class GenotypeRel(Relation):
 
     def shrink(self, inp):
         cfg = inp["cfg"]
+        hA, hB = events(inp["histA"]), events(inp["histB"])
+        # histories first: the smallest witness is (nothing, one earlier call)
+        if hA:
+            yield dict(inp, histA=[])
+        for h, key in ((hA, "histA"), (hB, "histB")):
+            if len(h) > 1:
+                for j in range(len(h)):
+                    yield dict(inp, **{key: h[:j] + h[j + 1:]})
+        for j, e in enumerate(hB):
+            if e.get("k") == "simgt" and (e.get("api") != "py" or not e["par"].get("only_bp")):
+                yield dict(inp, histB=hB[:j] + [dict(e, api="py", par=dict(e["par"], only_bp=True))] + hB[j + 1:])
+        if inp.get("fresh"):
+            yield {k: v for k, v in inp.items() if k != "fresh"}
         for k in ("pop_field", "sample_field", "norepl", "ref_pgen"):
             if inp[k]:
                 yield dict(inp, **{k: False})
@@ -449,18 +742,20 @@ class GenotypeRel(Relation):
             yield dict(inp, cfg=dict(cfg, model=cfg["model"][:-1]))
         if inp["fmt"] != "vcf":
             yield dict(inp, fmt="vcf")
-        simple = {"reseed": 5, "draws": 1, "randint": 0, "rng_seed": 1, "rng_draws": 0}
-        if inp["histB"] != simple:
+        simple = [{"k": "np", "reseed": 5, "draws": 1, "randint": 0, "rng_seed": 1, "rng_draws": 0}]
+        if not has_haptools_event(hB) and hB != simple:
             yield dict(inp, histB=simple)
-        none = {"reseed": 5, "draws": 0, "randint": 0, "rng_seed": 1, "rng_draws": 0}
-        if inp["histA"] != none:
-            yield dict(inp, histA=none)
 
     def mutate(self, inp, rng):
         for s in SEEDS:
             yield dict(inp, seed=s)
         for _ in range(4):
-            yield dict(inp, histA=gen_history(rng), histB=gen_history(rng))
+            a, b, fresh = gen_hist_pair(rng, lambda hap: gen_ghist(rng, inp["cfg"], inp["seed"], hap))
+            c = dict(inp, histA=a, histB=b)
+            c.pop("fresh", None)
+            if fresh:
+                c["fresh"] = True
+            yield c
 
     def signature(self, inp, obs):
         seed = inp["seed"]
@@ -473,8 +768,32 @@ class GenotypeRel(Relation):
 # simphenotype
 
 
-def gen_pconfig(rng):
-    n = int(rng.integers(3, 13))
+def gen_phist(rng, inp, haptools):
+    """a history for the phenotype relation; haptools=False: numpy disturbances only"""
+    out = []
+    if haptools:
+        for _ in range(int(rng.choice([1, 1, 2, 3]))):
+            r = rng.random()
+            if r < 0.55:
+                # an earlier simphenotype run on the same files with OTHER options
+                par = {"seed": inp["seed"] if rng.random() < 0.3 else None if rng.random() < 0.15 else int(rng.integers(0, 2**32 - 1)),
+                       "reps": int(rng.integers(1, 4)),
+                       "heritability": None if rng.random() < 0.5 else float(rng.choice([0.2, 0.7, 1.0])),
+                       "environment": None if rng.random() < 0.7 else float(rng.choice([0.0, 1.5])),
+                       "prevalence": None if rng.random() < 0.5 else float(rng.choice([0.25, 0.5])),
+                       "normalize": bool(rng.random() < 0.5)}
+                out.append({"k": "simpt", "api": str(rng.choice(["py", "cli"])), "par": par})
+            elif r < 0.9:
+                out.append({"k": "load", "what": str(rng.choice(["gt", "hp"])), "cls": str(rng.choice(["GenotypesVCF", "Genotypes"]))})
+            else:
+                out.append(np_event(rng))
+    if rng.random() < 0.8:
+        out.append(np_event(rng))
+    return out
+
+
+def gen_pconfig(rng, n=None, tied=False):
+    n = int(rng.integers(3, 13)) if n is None else n
     m = int(rng.integers(1, 5))
     gts = []
     for j in range(m):
@@ -484,7 +803,7 @@ def gen_pconfig(rng):
     betas = [float(rng.choice([-0.5, -0.2, 0.1, 0.25, 0.4, 0.6, 0.9])) for _ in range(m)]
     her = None if rng.random() < 0.4 else float(rng.choice([0.1, 0.5, 0.8, 1.0]))
     env = None if rng.random() < 0.7 else float(rng.choice([0.0, 0.5, 2.0]))
-    return {
+    c = {
         "n": n, "gts": gts, "betas": betas, "kind": str(rng.choice(["hap", "snplist"])),
         "fmt": str(rng.choice(["vcf.gz", "vcf.gz", "pgen"])),
         "reps": int(rng.integers(1, 5)), "heritability": her, "environment": env,
@@ -492,8 +811,56 @@ def gen_pconfig(rng):
         "normalize": bool(rng.random() < 0.7),
         "seed": (None if rng.random() < 0.1 else int(rng.choice(SEEDS)) if rng.random() < 0.8 else int(rng.integers(0, 2**32 - 1))),
         "mode": str(rng.choice(["py", "cli", "mixed"])),
-        "histA": gen_history(rng), "histB": gen_history(rng),
     }
+    if tied:
+        # noise-free case/control trait with tied liabilities: heritability 1 (or environment 0) makes the noise
+        # scale 0, one or two variants give at most a handful of distinct liabilities, 0 < k < n cases must be cut
+        # out of the ties - the cut may depend on the seeded generator at most, never on the process
+        c["n"] = n = max(n, 4)
+        c["gts"] = [[[0, 0], [1, 1]] + [[int(rng.integers(0, 2)), int(rng.integers(0, 2))] for _ in range(n - 2)]
+                    for _ in range(int(rng.integers(1, 3)))]
+        c["betas"] = [float(rng.choice([0.25, 0.5])) for _ in c["gts"]]
+        if rng.random() < 0.6:
+            c["heritability"], c["environment"] = 1.0, None if rng.random() < 0.6 else float(rng.choice([0.5, 2.0]))
+        else:
+            c["heritability"], c["environment"] = None if rng.random() < 0.5 else 0.5, 0.0
+        c["prevalence"] = float(rng.choice([0.25, 0.5, 0.75]))
+        if c["seed"] is None:
+            c["seed"] = int(rng.choice(SEEDS))
+    c["histA"], c["histB"], fresh = gen_hist_pair(rng, lambda hap: gen_phist(rng, c, hap))
+    if fresh:
+        c["fresh"] = True
+    return c
+
+
+def ppar(inp):
+    """the options of the simphenotype run under test"""
+    return {k: inp[k] for k in ("reps", "environment", "heritability", "prevalence", "normalize", "seed")}
+
+
+def call_simphenotype(par, out, mode, gt, hp):
+    """haptools simphenotype with the options par through simulate_pt or the command line"""
+    from pathlib import Path
+
+    if mode == "py":
+        import haptools.sim_phenotype as sp
+
+        sp.simulate_pt(Path(gt), Path(hp), par["reps"], par["environment"], par["heritability"], par["prevalence"],
+                       par["normalize"], None, None, None, None, None, par["seed"], Path(out), None)
+        return
+    from click.testing import CliRunner
+    from haptools.__main__ import main
+
+    args = ["simphenotype", gt, hp, "--replications", str(par["reps"]), "--output", out, "--verbosity", "CRITICAL"]
+    if par["seed"] is not None:
+        args += ["--seed", str(par["seed"])]
+    for opt, key in (("--heritability", "heritability"), ("--environment", "environment"), ("--prevalence", "prevalence")):
+        if par[key] is not None:
+            args += [opt, str(par[key])]
+    args.append("--normalize" if par["normalize"] else "--no-normalize")
+    r = CliRunner().invoke(main, args, catch_exceptions=True)
+    if r.exception is not None and not (isinstance(r.exception, SystemExit) and r.exit_code == 0):
+        raise r.exception
 
 
 def write_pinputs(inp, d):
@@ -551,8 +918,6 @@ class RngProxy:
 
 
 def one_prun(inp, d, tag, mode, gt, hp):
-    from pathlib import Path
-
     import haptools.sim_phenotype as sp
 
     out = os.path.join(d, f"{tag}.pheno")
@@ -573,28 +938,18 @@ def one_prun(inp, d, tag, mode, gt, hp):
             res["steps"].append([before, gen_state_hash(self.rng)])
 
     cls.__init__, cls.run = init2, run2
+    rec = FirstDraw()
     try:
-        if mode == "py":
-            sp.simulate_pt(Path(gt), Path(hp), inp["reps"], inp["environment"], inp["heritability"], inp["prevalence"],
-                           inp["normalize"], None, None, None, None, None, inp["seed"], Path(out), None)
-        else:
-            from click.testing import CliRunner
-            from haptools.__main__ import main
-
-            args = ["simphenotype", gt, hp, "--replications", str(inp["reps"]), "--output", out, "--verbosity", "CRITICAL"]
-            if inp["seed"] is not None:
-                args += ["--seed", str(inp["seed"])]
-            for opt, key in (("--heritability", "heritability"), ("--environment", "environment"), ("--prevalence", "prevalence")):
-                if inp[key] is not None:
-                    args += [opt, str(inp[key])]
-            args.append("--normalize" if inp["normalize"] else "--no-normalize")
-            r = CliRunner().invoke(main, args, catch_exceptions=True)
-            if r.exception is not None and not (isinstance(r.exception, SystemExit) and r.exit_code == 0):
-                raise r.exception
+        call_simphenotype(ppar(inp), out, mode, gt, hp)
     except BaseException as e:  # noqa
         res["err"] = {"cls": type(e).__name__, "kind": err_kind(e) if isinstance(e, Exception) else 10, "msg": str(e)[:160]}
     finally:
+        rec.close()
         cls.__init__, cls.run = init, run
+    # what the run did to the global generator (nothing: the simulator owns a private one) and how many
+    # generators it created (one: PhenoSimulator.__init__)
+    res["glob"] = rec.n + rec.reseeds + rec.gaps
+    res["rngs"] = rec.private
     res["out"] = [sha(open(out, "rb").read()) if os.path.exists(out) else "no-pheno",
                   "ok" if res["err"] is None else "failed:" + res["err"]["cls"]]
     res["cols"] = pheno_columns(out) if os.path.exists(out) else []
@@ -622,19 +977,14 @@ def run_phenotype(inp):
     d = tempfile.mkdtemp(prefix="hv_c10p_")
     try:
         gt, hp = write_pinputs(inp, d)
-        mA, mB = {"py": ("py", "py"), "cli": ("cli", "cli"), "mixed": ("py", "cli")}[inp["mode"]]
-        if inp.get("xproc"):
-            a = run_in_subprocess("p", inp, d, "A", mA, [gt, hp], inp["histA"], inp["xproc"][0])
-            b = run_in_subprocess("p", inp, d, "B", mB, [gt, hp], inp["histB"], inp["xproc"][1])
-        else:
-            disturb(inp["histA"])
-            a = one_prun(inp, d, "A", mA, gt, hp)
-            disturb(inp["histB"])
-            b = one_prun(inp, d, "B", mB, gt, hp)
+        a, b = double_run("p", inp, d, [gt, hp], one_prun)
         ref = gen_state_hash(np.random.default_rng(inp["seed"])) if inp["seed"] is not None else None
         return {"ref": ref, "a": a, "b": b}
     finally:
         shutil.rmtree(d, ignore_errors=True)
+
+
+WIDE_P = [127, 128, 255, 256, 1000, 1001]
 
 
 class PhenotypeRel(Relation):
@@ -647,17 +997,37 @@ class PhenotypeRel(Relation):
     budget = {"quick": 400, "thorough": 6000}
     anchors = [("haptools/sim_phenotype.py", "PhenoSimulator.__init__"), ("haptools/sim_phenotype.py", "PhenoSimulator.run"),
                ("haptools/sim_phenotype.py", "simulate_pt"), ("haptools/__main__.py", "simphenotype")]
+    NTIED = 12
 
     def generate(self, rng, n, tier):
         out = []
+        ns = 2 * len(SEEDS)
+        nwide = 2 if tier == "quick" else len(WIDE_P)
         for k in range(n):
-            c = gen_pconfig(rng)
-            if k < 2 * len(SEEDS):
+            if ns <= k < ns + self.NTIED or (k >= ns + self.NTIED + nwide and rng.random() < 0.06):
+                # noise-free, tied, case/control: every run (both entry points; numpy-only histories that move the
+                # GLOBAL generator differently before the two runs, and generated ones)
+                c = gen_pconfig(rng, tied=True)
+                if k < ns + self.NTIED:
+                    c["mode"] = ("py", "cli", "mixed")[k % 3]
+                    if k % 2 == 0:
+                        c["histA"], c["histB"] = [np_event(rng)], [np_event(rng)]
+                        c["histA"][0]["reseed"], c["histB"][0]["reseed"] = 11 + k, 1011 + k
+                        c.pop("fresh", None)
+            elif ns + self.NTIED <= k < ns + self.NTIED + nwide:
+                # width boundary: sample counts around 127|128, 255|256, 1000|1001 (numpy print summarisation)
+                wide = WIDE_P[int(rng.integers(0, len(WIDE_P)))] if tier == "quick" else WIDE_P[k - ns - self.NTIED]
+                c = gen_pconfig(rng, n=wide)
+                c["gts"], c["betas"] = c["gts"][:1], c["betas"][:1]
+            else:
+                c = gen_pconfig(rng)
+            if k < ns:
                 c["seed"] = SEEDS[k % len(SEEDS)]
                 c["mode"] = "py" if k < len(SEEDS) else "cli"
                 c["reps"] = max(c["reps"], 2)
             if tier == "thorough" and k % 10 == 9:
                 c["xproc"] = [int(rng.integers(1, 1000)), int(rng.integers(1001, 2000))]
+                c.pop("fresh", None)
             out.append(c)
         return out
 
@@ -668,6 +1038,7 @@ class PhenotypeRel(Relation):
             for mode in ("py", "cli"):
                 c = gen_pconfig(rng)
                 c.update(seed=seed, mode=mode, xproc=[1, 2], reps=3)
+                c.pop("fresh", None)
                 out.append(c)
         return out
 
@@ -689,28 +1060,46 @@ class PhenotypeRel(Relation):
     def _cols(r, inp):
         return r["cols"] if inp["prevalence"] is None else [x["noise"] for x in r["draws"]]
 
+    @staticmethod
+    def _tied(inp):
+        return (inp["prevalence"] is not None and 0 < int(inp["prevalence"] * inp["n"]) < inp["n"] and not expect_noise(inp)
+                and (inp["heritability"] is not None or inp["environment"] is not None))
+
     def encode(self, inp, obs):
         it = L.Interner()
         it("__none__")
         if not isinstance(obs, dict) or "a" not in obs:
-            return f"(mkp {L.opt(inp['seed'], L.z)} 0 (mkprun (-97) [] [] [] false) (mkprun (-97) [] [] [] false))"
+            return f"(mkp {L.opt(inp['seed'], L.z)} 0 (mkprun (-97) [] [] [] false 0 1) (mkprun (-97) [] [] [] false 0 1))"
 
         def run(r):
             start = it(r["start"]) if r["start"] is not None else -97
             steps = L.lst(r["steps"], lambda s: f"({L.z(it(s[0]))}, {L.z(it(s[1]))})")
             return (f"(mkprun {L.z(start)} {steps} {L.zl([it(x) for x in r['out']])} "
-                    f"{L.zl([it(x) for x in self._cols(r, inp)])} {L.b(self._noisy(r, inp))})")
+                    f"{L.zl([it(x) for x in self._cols(r, inp)])} {L.b(self._noisy(r, inp))} "
+                    f"{L.z(r['glob'])} {L.z(r['rngs'])})")
         ref = it(obs["ref"]) if obs["ref"] is not None else 0
         return f"(mkp {L.opt(inp['seed'], L.z)} {L.z(ref)} {run(obs['a'])} {run(obs['b'])})"
 
     def nontrivial(self, inp, obs):
         return (isinstance(obs, dict) and "a" in obs and inp["seed"] is not None and obs["a"]["err"] is None
-                and obs["b"]["err"] is None and self._noisy(obs["a"], inp))
+                and obs["b"]["err"] is None and (self._noisy(obs["a"], inp) or self._tied(inp)))
 
     def classes(self, inp, obs):
         out = [f"seed={inp['seed'] if inp['seed'] in SEEDS or inp['seed'] is None else 'other'}", "mode=" + inp["mode"],
                "fmt=" + inp["fmt"], "effects=" + inp["kind"], f"reps={inp['reps']}",
                "case-control" if inp["prevalence"] is not None else "quantitative"]
+        if self._tied(inp):
+            out.append("noise-free-tied-case-control(0<k<n)")
+        if inp["n"] >= 127:
+            out.append(f"width:n={inp['n']}")
+        if inp.get("fresh"):
+            out.append("runA-in-fresh-interpreter")
+        hA, hB = has_haptools_event(inp["histA"]), has_haptools_event(inp["histB"])
+        out.append("history:A=" + ("haptools-calls" if hA else "numpy-only" if events(inp["histA"]) else "empty")
+                   + ",B=" + ("haptools-calls" if hB else "numpy-only" if events(inp["histB"]) else "empty"))
+        for e in events(inp["histA"]) + events(inp["histB"]):
+            if e.get("k") in ("simpt", "load"):
+                out.append("earlier-" + e["k"] + (":" + e["what"] if e["k"] == "load" else "/" + e.get("api", "py")))
         if isinstance(obs, dict) and "a" in obs:
             for r in (obs["a"], obs["b"]):
                 if r["err"]:
@@ -720,6 +1109,15 @@ class PhenotypeRel(Relation):
         return out
 
     def shrink(self, inp):
+        hA, hB = events(inp["histA"]), events(inp["histB"])
+        if hA:
+            yield dict(inp, histA=[])
+        for h, key in ((hA, "histA"), (hB, "histB")):
+            if len(h) > 1:
+                for j in range(len(h)):
+                    yield dict(inp, **{key: h[:j] + h[j + 1:]})
+        if inp.get("fresh"):
+            yield {k: v for k, v in inp.items() if k != "fresh"}
         if inp["mode"] != "py":
             yield dict(inp, mode="py")
         if inp["fmt"] != "vcf.gz":
@@ -728,6 +1126,8 @@ class PhenotypeRel(Relation):
             yield dict(inp, reps=inp["reps"] - 1)
         if len(inp["gts"]) > 1:
             yield dict(inp, gts=inp["gts"][:-1], betas=inp["betas"][:-1])
+        if inp["n"] > 4:
+            yield dict(inp, n=inp["n"] - 1, gts=[col[:-1] for col in inp["gts"]])
         for k in ("heritability", "environment", "prevalence"):
             if inp[k] is not None:
                 yield dict(inp, **{k: None})
@@ -736,6 +1136,13 @@ class PhenotypeRel(Relation):
         for s in SEEDS:
             yield dict(inp, seed=s)
         yield dict(inp, reps=inp["reps"] + 2)
+        for _ in range(3):
+            a, b, fresh = gen_hist_pair(rng, lambda hap: gen_phist(rng, inp, hap))
+            c = dict(inp, histA=a, histB=b)
+            c.pop("fresh", None)
+            if fresh:
+                c["fresh"] = True
+            yield c
 
     def signature(self, inp, obs):
         seed = inp["seed"]
@@ -858,9 +1265,10 @@ def run_replicates(inp):
     d = tempfile.mkdtemp(prefix="hv_c10r_")
     try:
         gt, hp = write_pinputs(inp, d)
-        disturb(inp["histA"])
+        ctx = {"kind": "p", "inp": inp, "d": d, "paths": [gt, hp]}
+        run_history(inp["histA"], ctx, "Z")
         z = one_rrun(inp, d, "Z", "py", gt, hp, True)
-        disturb(inp["histB"])
+        run_history(inp["histB"], ctx, "A")
         a = one_rrun(inp, d, "A", inp["mode"], gt, hp, False)
         if z["err"] or a["err"]:
             return {"failed": (z["err"] or a["err"])}
@@ -884,9 +1292,11 @@ def run_replicates(inp):
         shutil.rmtree(d, ignore_errors=True)
 
 
-def gen_rconfig(rng):
+def gen_rconfig(rng, n=None):
     c = gen_pconfig(rng)
-    n = int(rng.integers(3, 9))
+    c.pop("fresh", None)
+    wide = n is not None
+    n = int(rng.integers(3, 9)) if n is None else n
     c["n"] = n
     c["gts"] = [col[:n] if len(col) >= n else col + [[int(rng.integers(0, 2)), int(rng.integers(0, 2))] for _ in range(n - len(col))]
                 for col in c["gts"]]
@@ -894,7 +1304,18 @@ def gen_rconfig(rng):
     c["mode"] = str(rng.choice(["py", "cli"]))
     c["prevalence"] = None if rng.random() < 0.55 else float(rng.choice([0.25, 0.5, 0.75, 0.4, 0.6]))
     c["seed"] = None if rng.random() < 0.1 else int(rng.choice(SEEDS)) if rng.random() < 0.8 else int(rng.integers(0, 2**32 - 1))
+    if wide:
+        # width boundary: the sample count straddles 127|128, 255|256 (thorough: 1000|1001, numpy print summarisation)
+        c["gts"], c["betas"], c["reps"] = c["gts"][:1], c["betas"][:1], 2
+        if c["heritability"] == 1.0 or c["environment"] == 0.0:
+            c["heritability"], c["environment"] = 0.5, None
+        # quantitative only: the case/control oracle (top set over exact rationals) is quadratic in n inside Coq
+        # (n = 255 costs minutes); case/control at these widths is exercised by the `phenotype` relation
+        c["prevalence"] = None
     return c
+
+
+WIDE_R = [127, 128, 255, 256]
 
 
 class ReplicatesRel(Relation):
@@ -914,8 +1335,10 @@ class ReplicatesRel(Relation):
 
     def generate(self, rng, n, tier):
         out = []
+        widths = [WIDE_R[int(rng.integers(0, len(WIDE_R)))]] if tier == "quick" else WIDE_R + [1000, 1001]
         for k in range(n):
-            c = gen_rconfig(rng)
+            j = k - 4 * len(SEEDS)
+            c = gen_rconfig(rng, widths[j] if 0 <= j < len(widths) else None)
             if k < 4 * len(SEEDS):      # every named seed x {simulate_pt, CLI} x {quantitative, case/control}, every run
                 c["seed"] = SEEDS[k % len(SEEDS)]
                 c["mode"] = "py" if (k // len(SEEDS)) % 2 == 0 else "cli"
@@ -965,6 +1388,10 @@ class ReplicatesRel(Relation):
         out = [f"seed={inp['seed'] if inp['seed'] in SEEDS or inp['seed'] is None else 'other'}", "mode=" + inp["mode"],
                "fmt=" + inp["fmt"], "effects=" + inp["kind"], f"reps={inp['reps']}",
                "case-control" if inp["prevalence"] is not None else "quantitative"]
+        if inp["n"] >= 127:
+            out.append(f"width:n={inp['n']}")
+        if has_haptools_event(inp["histA"]) or has_haptools_event(inp["histB"]):
+            out.append("after-earlier-haptools-calls")
         if isinstance(obs, dict) and "ok" in obs:
             out.append("noise>0" if self._noisy(obs) else "noise=0")
         elif isinstance(obs, dict) and "failed" in obs:
@@ -1014,19 +1441,30 @@ LEVEL_TEXT = (
     "Coq theorems for EVERY generator (state machine S, reseed, draw) and every program drawing from it: with the "
     "guard `seed is not None` simgenotype's outputs, the state before EVERY draw, the values drawn and the final "
     "generator state are a function of seed and inputs only (history-independent, seed 0 included; the pinned guard "
-    "`if seed:` is refuted at 0); simphenotype never reads process state when seeded and threads one generator through "
-    "its replicates (replicate r+1 starts from the state r left; the re-seeding mutant yields copies for every "
-    "generator, the threaded loop pairwise different noise for every generator that does not revisit a state); the "
-    "replication loop on one simulator object appends, for every number of replications (induction on R), "
+    "`if seed:` is refuted at 0). 'Whatever ran earlier in the same process' is a process model (global generator, "
+    "a store for all other persistent state, OS entropy) in which earlier programs are ARBITRARY (draw, re-seed, read "
+    "and overwrite the store): after any two lists of earlier programs, started in any two processes, the seeded "
+    "command gives the same output and leaves the same generator state IF its simulation cannot observe the store "
+    "(C10_seeded_after_any_history; every drawing program of the first part qualifies, C10_lifted_after_any_history), "
+    "and ONLY IF (C10_history_independent_needs_blind: earlier programs can leave anything in the store; a leak "
+    "through the store is refuted on a toy generator, C10_store_leak_refuted); "
+    "simphenotype never reads or writes process state when seeded (C10_simphenotype_after_any_history) and threads one "
+    "generator through its replicates (replicate r+1 starts from the state r left; the re-seeding mutant yields copies "
+    "for every generator, the threaded loop pairwise different noise for every generator that does not revisit a "
+    "state); the replication loop on one simulator object appends, for every number of replications (induction on R), "
     "pheno(g, draw_k) as column k, so replicate k depends on the inputs and on the draw of replicate k only (stated "
     "for any two generators agreeing on draw k; the cached-genetic-component-updated-in-place loop is refuted). "
-    "Tied to /repo on every run by double runs in one process - Python entry points and CliRunner - with the "
-    "generators disturbed in between, comparing the generator state at every np.random call / around every replicate "
-    "with the model and .bp / VCF-BCF-PGEN content / .pheno bytes with each other, and by single runs with 2-6 "
-    "replications whose recorded float noise vectors, written columns and zero-noise genetic component are checked "
-    "inside Coq: column_k - noise_k is one vector for all k (case/control: the cases are a top set of genetic + "
-    "noise_k), noise_k pairwise different, and (agreement) noise_k = the k-th consecutive draw of a copy of the "
-    "simulator's generator, column_k = fl(genetic + noise_k) bit for bit."
+    "Tied to /repo on every run by double runs - Python entry points and CliRunner - where each of the two runs is "
+    "preceded by its OWN generated history (numpy disturbances; earlier simgenotype runs on the same map directory, "
+    "model and reference with another --region / chromosome subset / seed / --only_breakpoint; earlier simphenotype "
+    "runs with other options on the same files; loads of the inputs with the haptools readers; one history possibly "
+    "empty; run A sometimes in a fresh interpreter), comparing the generator state at every np.random call / around "
+    "every replicate with the model, checking that every change of the global generator went through a recorded call "
+    "and that no other generator was created, and .bp / VCF-BCF-PGEN content / .pheno bytes with each other; and by "
+    "single runs with 2-6 replications whose recorded float noise vectors, written columns and zero-noise genetic "
+    "component are checked inside Coq: column_k - noise_k is one vector for all k (case/control: the cases are a top "
+    "set of genetic + noise_k), noise_k pairwise different, and (agreement) noise_k = the k-th consecutive draw of a "
+    "copy of the simulator's generator, column_k = fl(genetic + noise_k) bit for bit."
 )
 LEVEL_NOTE = (
     "Partial: numpy's generators are an abstract deterministic state machine (their determinism is trusted); "
@@ -1041,9 +1479,18 @@ LEVEL_NOTE = (
     "model applied to the draws recorded during the run (model i ds = replay (P i) ds - the statement the C01-C03 "
     "correspondences test on generated inputs but do not prove of the code), THEN the seeded command's output is that "
     "model applied to a draw list fixed by seed and inputs; the hypothesis is not discharged for the C01-C03 models; "
+    "that haptools has NO OTHER PERSISTENT STATE than the generator - the hypothesis store_blind / gen_only of the "
+    "history theorems, proved necessary and sufficient for reproducibility after arbitrary earlier programs - is not "
+    "proved of the code: it is exactly what the correspondence run tests, by running other haptools calls on the same "
+    "input files before one of two otherwise equal seeded runs (and run A in a fresh interpreter in a tenth of the "
+    "cases); a leak that needs an earlier call of a kind the generator does not produce (another sub-command than "
+    "simgenotype / simphenotype / the readers, rewritten input files, state kept outside the process such as an "
+    "on-disk cache) is not exercised; "
     "that the simulators use no other source of randomness than the modelled generator is established by the "
-    "double runs (byte/content equality, equal np.random call traces of the legacy global API; a private Generator "
-    "or the `random` module inside simgenotype would only show through differing outputs), not by proof; "
+    "double runs (byte/content equality, equal np.random call traces of the legacy global API, no state change of "
+    "the global generator outside a recorded call, no np.random.default_rng / RandomState / Generator / stdlib random use inside "
+    "simgenotype and exactly one default_rng inside simphenotype; a generator obtained in another way - a C "
+    "extension, numpy.random._generator imported directly - would only show through differing outputs), not by proof; "
     "hash-iteration determinism relies on PYTHONHASHSEED."
 )
 TECHNIQUE = "Coq proof over an abstract generator (Section variables) + vm_compute-evaluated double-run correspondence"
